@@ -52,6 +52,7 @@ class SimFS:
         self.installed = False
         self.fds: dict[int, str] = {}
         self.log_to_sim = True
+        self._rel_cache: dict[str, str] = {}
         self.short_every = 0  # knob: every m-th raw write of size > 1 is a short write
         self._writes = 0
 
@@ -90,7 +91,10 @@ class SimFS:
         return None
 
     def rel(self, p: str) -> str:
-        return os.path.relpath(p, self.root)
+        r = self._rel_cache.get(p)
+        if r is None:
+            r = self._rel_cache[p] = os.path.relpath(p, self.root)
+        return r
 
     # ------------------------------------------------------------------- events
     def event(self, kind: str, path: str, size: int = 0) -> tuple[str, int]:
